@@ -122,6 +122,9 @@ def ev(expr, env):
         v = env[expr[1]]
         return v[expr[2]]
     a = [ev(x, env) for x in expr[1:]]
+    if any(isinstance(x, list) for x in a) and not any(hasattr(x, "variables") for x in a):
+        # direct construction with array values: element-wise, as numpy does for the built variables
+        a = [_np.asarray(x, dtype=object if any(is_sym(v) for v in (x if isinstance(x, list) else [x])) else float) if isinstance(x, list) else x for x in a]
     if op == "add":
         return a[0] + a[1]
     if op == "sub":
